@@ -187,8 +187,8 @@ def lin(n, resolve=None):
         return lin(s.c[0], resolve).scale(-1)
     if s.k == 'UnaryOperator' and s.op == '+':
         return lin(s.c[0], resolve)
-    if resolve is not None and s.k in ('DeclRefExpr',) and s.decl_id is not None:
-        d = resolve(s.decl_id)
+    if resolve is not None and var_of(s) is not None:
+        d = resolve(var_of(s))
         if d is not None:
             return lin(d, resolve)
     return Lin({key(s): 1})
